@@ -113,6 +113,8 @@ class _Walker:
          "p": unparse(p_ann), "m": unparse(m_ann),
          "p_dump": dump(p_ann), "m_dump": dump(m_ann),
          "m_is_str": isinstance(m_ann, ast.Constant) and isinstance(m_ann.value, str)}
+    if kind in ("param", "return") and self.func is not None:
+      d["fkey"] = func_key(self.func)
     d.update(kw)
     self.c.slots.append(d)
 
@@ -179,6 +181,19 @@ class _Walker:
             raise Mismatch(_scope_str(self.scope) or "<module>",
                            f"statement added by the merge ({field}): {type(mb[j]).__name__}",
                            m=ast.unparse(mb[j])[:300])
+        # or is M[j] a later statement of P?  then P[i] went missing
+        for i2 in range(i + 1, min(len(pb), i + 12)):
+          saved = self._save()
+          try:
+            self.stmt(pb[i2], mb[j])
+            ok = True
+          except Mismatch:
+            ok = False
+          self._restore(saved)
+          if ok:
+            raise Mismatch(_scope_str(self.scope) or "<module>",
+                           f"statement of the original missing from the merged source ({field})",
+                           p=ast.unparse(pb[i])[:300])
         raise first_err
       where = _scope_str(self.scope) or "<module>"
       if i < len(pb):
@@ -720,14 +735,10 @@ def judge(py, pyi, merged, stub_by_pytype, tolerate_added_classes=False):
           slot=s["kind"], name=s["name"], annotation=s["m"])
       continue
     # which P definition is this slot in?  (same qualname may be defined several times)
-    keys_p = {func_key(f) for f in pfunc}
-    if not keys_p:
+    kp = s.get("fkey")     # the shape of the very definition this slot belongs to
+    if kp is None:
       cnt("not_judged:function not found in the source model")
       continue
-    if len(keys_p) != 1:
-      cnt("not_judged:function defined with several shapes in the source")
-      continue
-    kp = next(iter(keys_p))
     same = [f for f in cands if func_key(f) == kp]
     if not same:
       bad("annotation inserted although no stub definition has this parameter shape", where=fq,
@@ -842,7 +853,8 @@ def _stub_spelling(stub, s, qual, src):
     c = stub.vars.get((qual + "." if qual else "") + s["name"], [])
     return unparse(c[-1].annotation) if c else None
   c = stub.funcs.get(qual, [])
-  for f in reversed(c):
+  same = [f for f in c if s.get("fkey") is None or func_key(f) == s["fkey"]]
+  for f in reversed(same or c):
     if f.returns is not None:
       return unparse(f.returns)
   return None
@@ -897,7 +909,7 @@ def _completeness(c, src, stub, norm, cnt, bad):
     for s in slots:
       if s["kind"] == "return":
         want = sf.returns
-        if want is None or _is_name_any_never(want):
+        if want is None or is_bare_any_never(norm(unparse(want))):
           continue
       else:
         if s["pkind"] in ("vararg", "kwarg"):
@@ -921,7 +933,7 @@ def _completeness(c, src, stub, norm, cnt, bad):
     if len(cands) != 1:
       continue
     sv = cands[0]
-    if _is_name_any_never(sv.annotation) or _is_trivial_valueless(sv):
+    if is_bare_any_never(norm(unparse(sv.annotation))) or _is_trivial_valueless(sv):
       continue
     slots = var_slots.get((sq, name), [])
     if any(s["p"] is not None for s in slots):
